@@ -1803,17 +1803,23 @@ PROPS['C20'] = dict(
 )
 
 PROPS['C13'] = dict(
-    module='FlacModel.Props.C13',
+    module='FlacModel.Props.C13b',
     theorems=['Flac.C13.sinkWriteAll_spec', 'Flac.C13.flushBuf_spec', 'Flac.C13.bwWriteAll_spec', 'Flac.C13.chunks_spec', 'Flac.C13.inplace_ok_delivers',
-              'Flac.C13.dropped_writer_loses_data', 'Flac.C13.direct_ok_delivers'],
+              'Flac.C13.dropped_writer_loses_data', 'Flac.C13.direct_ok_delivers',
+              'Flac.C13.folded_accepted', 'Flac.C13.cwWriteAll_spec', 'Flac.C13.cwChunks_spec', 'Flac.C13.frame_ok_delivers', 'Flac.C13.frame_failed_prefix',
+              'Flac.C13.frames_ok_deliver', 'Flac.C13.frame_ok_crc16_valid', 'Flac.C13.header_ok_crc8_valid', 'Flac.C13.reads_checksum'],
     components=[Faults()],
     rule='exhaustive failure indices: for several update_file scenarios (in-place and rebuilt, with and without padding) the n-th call for every n up to 14 (quick) / 40 (thorough), on the original or on the rebuilt stream, '
          'counting all calls or only writes / flushes / seeks / reads, failing permanently, once, with Interrupted, or as a 1-byte short write; the same for write_blocks on random block lists (n up to 30/120) and for '
-         'encode+finalize through the byte, sample and channel writers (n up to 25/120, compared with the fault-free file); each run is repeated without the fault to know what a complete result is',
+         'encode+finalize through the byte, sample and channel writers (n up to 25/120; short writes of 1 and 3 bytes at each index and sinks that accept at most 1/2/3/7 bytes per call from some call on; compared with the fault-free file); '
+         'each run is repeated without the fault to know what a complete result is',
     claim='inplace_ok_delivers: for EVERY failure schedule of the underlying stream (each call independently failing, interrupted or short), every BufWriter capacity and every split of the serialised blocks into writes, '
           'if the in-place write as the current source does it (explicit flush whose result is returned - the shape is regenerated from update_file) reports success then the stream holds exactly the old contents followed '
           'by every byte of the new blocks; dropped_writer_loses_data: the original shape (writer dropped) provably lacks this; direct_ok_delivers: the same for paths that write straight through with `?` (write_blocks, '
-          'frames, header rewrite). Invariant: sink contents ++ buffer = everything accepted so far, preserved by every call outcome.',
+          'frames, header rewrite). Invariant: sink contents ++ buffer = everything accepted so far, preserved by every call outcome. '
+          'Checksummed path (C13b): CrcWriter::write is modelled with the folded slice regenerated from crc.rs (folded_accepted); cwChunks_spec: after any pieces, under any schedule and whether or not the writes '
+          'succeeded, the carried checksum is that of exactly the bytes that reached the stream; frame_ok_delivers / frames_ok_deliver: frames reported written are on the stream whole, each followed by the checksum of its own bytes; '
+          'frame_ok_crc16_valid, header_ok_crc8_valid: with the crate\'s tables that means CRC remainder 0 (uses crc16_self/crc8_self); reads_checksum: the same for CrcReader over any segmentation of reads.',
     note='partial: BufWriter and write_all are a hand model of std (modelled, not verified); the harness does not see their internal call pattern, so the correspondence for C13 is the property oracle evaluated on the '
          'real code at every failure index (success with a tripped fault must equal the fault-free result; no panics; read errors propagate), not a model-vs-implementation diff. Endless Interrupted is a hang in both.',
     trusted_base=COMMON_TRUST,
